@@ -1,0 +1,15 @@
+//go:build verif
+
+package keeper
+
+// Machine-checked contracts for the govc verifier (/verif). Comment-only; compiled only with -tags verif.
+
+// Admin membership test: a deterministic function of the admin parameter (a list scan).
+//@ func (k Keeper) Admin
+//@   property C12
+//@   pure
+
+// Kill switch (C12): accepted only from a configured admin address.
+//@ func (m msgServer) MsgKillSwitch
+//@   property C12
+//@   ensures #c12-admin-only: ok ==> m.keeper.Admin(ctx, msg.From)
